@@ -192,6 +192,20 @@ class ScriptedApp:
                 err = await self._send(inst, send, op[1])
                 if err is not None and not (len(op) > 2 and op[2] == "tolerate"):
                     raise err
+            elif name == "ws_loop":
+                # receive until the disconnect; optionally echo every message back
+                opts = op[1] if len(op) > 1 else {}
+                while not inst.disconnected:
+                    m = await self._recv(inst, receive)
+                    if m.get("type") == "websocket.receive" and opts.get("echo"):
+                        out = {"type": "websocket.send"}
+                        if m.get("bytes") is not None:
+                            out["bytes"] = {"$raw": bytes(m["bytes"])}
+                        else:
+                            out["text"] = m.get("text")
+                        err = await self._send(inst, send, out)
+                        if err is not None and not opts.get("tolerate"):
+                            raise err
             elif name == "send_if_ext":
                 if op[1] in inst.scope.get("extensions", {}):
                     await self._send_or_raise(inst, send, op[2])
